@@ -278,7 +278,7 @@ prop('C13', level='other', units=[DF + 'epoch_df', GF + 'compute_features_2d'], 
 OB = 'bycycle.objs.fit.'
 prop('C14', level='other',
      units=[OB + 'Bycycle.fit', OB + 'BycycleBase.reduce_thresholds', OB + 'BycycleBase.__init__', CF, BGF,
-            OB + 'Bycycle.recompute_edges', OB + 'Bycycle.load', OB + 'Bycycle.__getattr__'],
+            OB + 'Bycycle.recompute_edges', OB + 'Bycycle.load', OB + 'Bycycle.__getattr__', OB + 'BycycleGroup.recompute_edges'],
      jobs=['objects', 'group_2d', 'group_3d'],
      unit_jobs={BGF: ['group_2d', 'group_3d']},
      explanation='Proved: Bycycle.fit hands exactly the stored settings (the very same option objects, positionally in the right '
@@ -292,7 +292,8 @@ prop('C14', level='other',
                  'table with the dictionary that reduce_thresholds returns - every *_threshold lowered by r, min_n_cycles unchanged, key '
                  'by key - and its result replaces the stored table; load stores the very objects it is given; attribute access '
                  'returns the values of the named column, in order, and raises AttributeError for an unknown name or an unfitted object. '
-                 'Bounded: whole operation sequences (incl. refits with the same array object), BycycleGroup.recompute_edges.')
+                 'BycycleGroup.recompute_edges applies recompute_edges(reduction) to every model exactly once, in place (2-D and 3-D, '
+                 'group level). Bounded: whole operation sequences (incl. refits with the same array object).')
 
 prop('C15', level='other',
      units=[CF, F + 'shape.compute_shape_features', F + 'shape.compute_durations', F + 'shape.compute_extrema_voltage',
